@@ -1966,3 +1966,161 @@ def show(t):
     if k == "slice":
         return "%s:%s:%s" % tuple(show(x) for x in t[1:])
     return repr(t)
+
+
+def layers(T, d):
+    """How the dictionary ``d`` (a ("new", site, ...) term created in T.fn) is
+    built up, as an ordered overlay: [(layer, node)] with layer one of
+
+      ("all", M)        every entry of mapping M is written (later wins)
+      ("present", M)    entries of M whose key is already in the dictionary
+      ("set", k, v)     one entry
+      ("foreach", it, layer)   the layer, once per element of ``it`` in order
+
+    M is a mapping term or ("zip", K, V).  The spellings recognised are the
+    constructor (dict(M), dict(zip(K, V)), {}), d.update(M), and loops that
+    store d[k] = v for the entries of M (for k, v in M.items(), optionally
+    guarded by ``k in d``; for k in d guarded by ``k in M``; for k, v in
+    zip(K, V)).  Anything else that writes ``d`` raises AnalysisError."""
+    if d[0] != "new":
+        raise AnalysisError("layers: not a dictionary created here")
+    site = SITES.get(d[1])
+    cfg = T.cfg
+    cnode = cfg.node_containing(site)
+
+    def src(x):
+        if x[0] == "items":
+            return x[1]
+        if x[0] == "call" and x[1] == ("global", "zip") and len(x[2]) == 2 \
+                and not x[3]:
+            return ("zip",) + tuple(x[2])
+        return x
+
+    def loops_of(node_ast):
+        out = []
+        n = getattr(node_ast, "_parent", None)
+        while n is not None and n is not T.fn:
+            if isinstance(n, (ast.For, ast.While)):
+                out.append(n)
+            n = getattr(n, "_parent", None)
+        return out
+    base_loops = loops_of(site)
+    events = []
+    inner = d[2]
+    if inner == ("dict", ()) or (
+            inner[0] == "call" and inner[1] == ("global", "dict") and
+            not inner[2] and not inner[3]):
+        pass
+    elif inner[0] == "call" and inner[1] == ("global", "dict") and \
+            len(inner[2]) == 1 and not inner[3]:
+        events.append((("all", src(inner[2][0])), cnode))
+    elif inner[0] == "dictcomp" and len(inner[2]) == 1 and \
+            not inner[2][0][1]:
+        it = inner[2][0][0]
+        E = ("elem", it)
+        if inner[1] == ("pair", ("comp", E, 0), ("comp", E, 1)):
+            events.append((("all", src(it)), cnode))
+        else:
+            raise AnalysisError("layers: dictionary comprehension")
+    else:
+        raise AnalysisError("layers: constructor %s" % show(inner)[:60])
+
+    def wrap(layer, node_ast, own_loop):
+        for lp in loops_of(node_ast):
+            if lp is own_loop or lp in base_loops:
+                continue
+            if not isinstance(lp, ast.For):
+                raise AnalysisError("layers: written in a while loop")
+            layer = ("foreach", T.term(lp.iter, cfg.loop_head[id(lp)]),
+                     layer)
+        return layer
+    for c in ast.walk(T.fn):
+        if isinstance(c, ast.Call) and isinstance(c.func, ast.Attribute) \
+                and _owner(c, T.fn):
+            try:
+                n = cfg.node_containing(c)
+                recv = T.term(c.func.value, n)
+            except AnalysisError:
+                continue
+            if recv != d:
+                continue
+            if c.func.attr == "update" and len(c.args) == 1 and \
+                    not c.keywords:
+                events.append((wrap(("all", src(T.term(c.args[0], n))), c,
+                                    None), n))
+            elif c.func.attr in ("get", "items", "keys", "values", "copy",
+                                 "iteritems", "iterkeys", "itervalues",
+                                 "__contains__", "__getitem__"):
+                continue
+            else:
+                raise AnalysisError("layers: %s() on the dictionary" %
+                                    c.func.attr)
+    for n in cfg.nodes:
+        if n.kind == "stmt" and isinstance(n.ast, ast.Delete):
+            for tg in n.ast.targets:
+                if isinstance(tg, ast.Subscript) and \
+                        T.term(tg.value, n) == d:
+                    raise AnalysisError("layers: entries are deleted")
+    for n, st, base, key, val in stores(T):
+        if base != d:
+            continue
+        if isinstance(st, ast.AugAssign):
+            raise AnalysisError("layers: entries updated in place")
+        lps = [lp for lp in loops_of(st) if lp not in base_loops]
+        if not lps:
+            events.append((("set", key, val), n))
+            continue
+        lp = lps[0]
+        if not isinstance(lp, ast.For):
+            raise AnalysisError("layers: written in a while loop")
+        head = cfg.loop_head[id(lp)]
+        it = T.term(lp.iter, head)
+        E = T._tag(lp.iter, ("elem", it))
+        pre = cfg.stmt_node[id(lp)]
+        before = T.all_facts(pre)
+        guard = [f for f in T.all_facts(n) if f not in before]
+        layer = None
+        s_ = src(it)
+        if key == ("comp", E, 0) and val == ("comp", E, 1) and \
+                (it[0] == "items" or s_[0] == "zip"):
+            if not guard:
+                layer = ("all", s_)
+            elif guard == [(("cmp", "In", key, d), True)]:
+                layer = ("present", s_)
+        elif s_[0] == "zip" and key[:2] == ("elem", s_[1]) and \
+                val[:2] == ("elem", s_[2]) and not guard:
+            layer = ("all", s_)
+        elif key == E and it in (d, ("keys", d)) and len(guard) == 1:
+            (g, pol), = guard
+            lk = lookup(val)
+            if pol and g[0] == "cmp" and g[1] == "In" and g[2] == E and \
+                    lk is not None and lk == (g[3], E):
+                layer = ("present", g[3])
+        elif key == ("comp", E, 0) and it == ("items", d) and \
+                len(guard) == 1:
+            (g, pol), = guard
+            lk = lookup(val)
+            if pol and g[0] == "cmp" and g[1] == "In" and g[2] == key and \
+                    lk is not None and lk == (g[3], key):
+                layer = ("present", g[3])
+        if layer is None:
+            raise AnalysisError("layers: store at line %d not understood" %
+                                st.lineno)
+        events.append((wrap(layer, st, lp), n))
+    # a total order by dominance
+    import functools
+
+    def before(a, b):
+        return a is not b and (cfg.dominates(a, b) or (
+            cfg.reaches(a, b) and not cfg.reaches(b, a)))
+    events.sort(key=functools.cmp_to_key(
+        lambda x, y: -1 if before(x[1], y[1]) else
+        (1 if before(y[1], x[1]) else 0)))
+    for (l1, a), (l2, b) in zip(events, events[1:]):
+        if a is b:
+            raise AnalysisError("layers: two writes in one statement")
+        fwd = cfg.dominates(a, b) or (cfg.reaches(a, b) and
+                                      not cfg.reaches(b, a))
+        if not fwd:
+            raise AnalysisError("layers: writes are not totally ordered")
+    return events
